@@ -23,7 +23,7 @@ def ff_variants(tier, include_rm=True):
 
 
 def make_spec(variant):
-    blocks = {k: F.BLOCKS[k] for k in variant.get("blocks", "ABCD")}
+    blocks = {k: F.BLOCKS[k] for k in variant.get("blocks", "ABCDE" if "partial" in variant["links"] else "ABCD")}
     for name, nre in (variant.get("nrexcl") or {}).items():
         blocks[name] = F.block_with_nrexcl(name, nre)
     return dict(blocks=blocks, links=[F.LINKS[i] for i in variant["links"]], mods=variant.get("mods") or {})
@@ -31,6 +31,8 @@ def make_spec(variant):
 
 def names_for(variant, n):
     links = set(variant["links"])
+    if "partial" in links:
+        return ("A", "C", "E") if n <= 3 else ("A", "E")
     if n <= 2:
         return ("A", "B", "C", "D")
     if n == 3:
